@@ -1965,6 +1965,18 @@ TARGETS2 = {
         ("harness/vw_packed.c", "varintPacked12Delete", "packed12Delete"),
         ("harness/vw_packed.c", "varintPacked12DeleteMember", "packed12DeleteMember"),
     ],
+    "CPacked13": [
+        ("harness/vw_packed.c", "varintPacked13Get", "packed13Get"),
+        ("harness/vw_packed.c", "varintPacked13Set", "packed13Set"),
+        ("harness/vw_packed.c", "varintPacked13SetHalf", "packed13SetHalf"),
+        ("harness/vw_packed.c", "varintPacked13SetIncr", "packed13SetIncr"),
+        ("harness/vw_packed.c", "varintPacked13BinarySearch", "packed13BinarySearch"),
+        ("harness/vw_packed.c", "varintPacked13Member", "packed13Member"),
+        ("harness/vw_packed.c", "varintPacked13Insert", "packed13Insert"),
+        ("harness/vw_packed.c", "varintPacked13InsertSorted", "packed13InsertSorted"),
+        ("harness/vw_packed.c", "varintPacked13Delete", "packed13Delete"),
+        ("harness/vw_packed.c", "varintPacked13DeleteMember", "packed13DeleteMember"),
+    ],
 }
 
 
